@@ -10,7 +10,7 @@ PARTIAL = ("Proved per operation (refinement to list operations on the option's 
            "refuse) and the frame property at any depth: an update through one option reference leaves the option at every disjoint reference "
            "exactly as it was (lens_frame), so every by-path setter - successful or refused - touches the addressed option only (C09_api_frame): the "
            "store is a map from references to value sequences and each call is a point update. Sequences are compositions of these; that a path "
-           "names the reference the caller means is C11_resolve. The tie enumerates all sequences to depth 2/3 over 83 calls from two start states "
+           "names the reference the caller means is C11_resolve. The tie enumerates all sequences to depth 2/3 over 92 calls from two start states "
            "plus random sequences to length 40.")
 VARIANT = "asan"
 RULE = ("operation sequences over a finite alphabet of API calls and arguments (scalar/indexed setters, cfg_setlist/addlist, "
@@ -56,6 +56,10 @@ OPS = [
     "SOA 0 %s" % hx("s"), "SOA 0 %s" % hx("sl"), "SSA 0 %s 0" % hx("s"), "SSA 0 %s 0" % hx("sl"), "SSA 0 %s 1" % hx("sl"),
     # a string list replaced by elements of itself (cfg_setlist(cfg, n, 2, cfg_getnstr(cfg, n, 1), cfg_getnstr(cfg, n, 0)))
     "SLA 0 %s 1 0" % hx("sl"), "SLA 0 %s 0 0" % hx("sl"),
+    # list set / append on float and boolean lists; validator registration through paths that name nothing, a non-section,
+    # and (under a case-insensitive context) another letter case
+    "AL 0 %s %s" % (hx("fl"), dbits(2.5)), "SL 0 %s %s %s" % (hx("fl"), dbits(0.5), dbits(8.0)), "AL 0 %s 1 0" % hx("bl"), "SL 0 %s 0" % hx("bl"),
+    "VF 0 %s v" % hx("nosuch|x"), "VF 0 %s v" % hx("i|x"), "VF 0 %s v" % hx("M|X"), "VF 0 %s v" % hx("m|x"), "VF 0 %s w" % hx("one|W"),
     # options whose value is a variable of the caller's (CFG_SIMPLE_*): the same typed store, one cell
     "SI 0 %s 0 9" % hx("si"), "SI 0 %s 1 9" % hx("si"), "SS 0 %s 0 %s" % (hx("ss"), hx("new")), "SS 0 %s 0 -" % hx("ss"), "SS 0 %s 0 %s" % (hx("sn"), hx("n")),
     "SB 0 %s 0 0" % hx("sb"), "SM 0 %s %s %s" % (hx("ss"), hx("a"), hx("b")), "SM 0 %s %s %s" % (hx("si"), hx("1"), hx("x")), "SM 0 %s %s" % (hx("si"), hx("0x20")),
